@@ -142,6 +142,13 @@ def structures():
                  R("b1", "derivation", None, ("e2", "e3", "a2", None, None)),
                  ("bundle", "b2"), E("b2", "e4"), AC("b2", "a4"), R("b2", "usage", "u", ("a4", "e4", "t"), (("k", 1),)),
                  R("b2", "start", None, ("a4", "e4", "a5", None)))))
+    # relations in three bundles and the document that refer to names declared (or first mentioned) in other scopes
+    out.append(("cross-scope-references",
+                (R("D", "alternate", None, ("n5", "nX"), (("k", "v"),)),
+                 ("bundle", "b0"), E("b0", "o1"), R("b0", "alternate", None, ("n4", "n4"), (("k", "v"),)),
+                 ("bundle", "b1"), R("b1", "generation", None, ("nX", "n4", None), (("k", "v"),)),
+                 ("bundle", "b2"), E("b2", "nX"), E("b2", "n5"), R("b2", "delegation", None, ("ag2", "nX", None)),
+                 R("b2", "start", None, ("n4", "n4", None, None), (("k", "v"),)))))
     # optional arguments with gaps (no activity, but generation and / or usage)
     out.append(("derivation-gaps", (E("D", "e1"), E("D", "e2"), R("D", "derivation", None, ("e2", "e1", None, "g2", "u2")),
                                     R("D", "derivation", None, ("e2", "e1", None, None, "u9")),
@@ -407,6 +414,11 @@ class C15(spec.Spec):
                             len(cands), e["kind"], e["uri"], curi)))
                         continue
                     node_of[(curi, e["uri"], e["kind"])] = cands[0]
+                    if member.get(cands[0], set()) != {curi}:
+                        # "inside that bundle's cluster": a node that is also listed in another cluster is drawn
+                        # in whichever comes first
+                        probs.append(("element-node-in-several-clusters", "node %s of %s (bundle %s) is a member of clusters %s" % (
+                            cands[0], e["uri"], curi, sorted(member.get(cands[0], ())))))
                 else:
                     # top level: the node that is not the own node of a bundle declaring the same thing
                     other = sum(1 for cu, es in exp["elements"].items() if cu for x in es
